@@ -125,6 +125,7 @@ type Worker struct {
 	feas      map[string]cacheEnt
 	pathsSinceReset int
 	local *[][]int16
+	memo  map[string]Value
 }
 
 func (w *Worker) pushSib(sib []int16) {
@@ -766,6 +767,7 @@ func (w *Worker) runPath(prefix []int16) {
 	w.notes = nil
 	w.lastModel = nil
 	w.sched = nil
+	w.memo = nil
 	mark := len(ip.journal)
 	ip.Steps = 0
 	ip.depth = 0
